@@ -402,8 +402,16 @@ def configured_table_rules(ck, rule, ctx, attr, what):
         return {(x.extra or {}).get("root") for x in walk([n]) if x.op == "Cfg" and x.attr[-1:] == ("table_version",)}
     vers = version_roots(grid2)
     if not vers:
-        ck.ob(rule, f"the {what} of a Taus object is read from the file of its configured table version", None, grid2,
-              "Taus.__init__", "no dependence on a configured table version found in the table's value")
+        # a file read whose name is built without the configured version is decided: it is the same file for every
+        # configuration; anything else (a value the model cannot read) stays undecided
+        names = [x for x in walk([grid2]) if x.op == "FStr" or (x.op == "Const" and isinstance(x.attr, str) and
+                                                                x.attr.endswith((".h5", ".hdf5", ".fits")))]
+        fixed = bool(names) and not any(x.op in ("Cfg", "Input") for n_ in names for x in walk([n_]))
+        ck.ob(rule, f"the {what} of a Taus object is read from the file of its configured table version",
+              False if fixed else None, names[0] if names else grid2, "Taus.__init__",
+              ("the file name does not depend on the configured table version: " + J.g.show(names[0], 3)) if fixed else
+              "no dependence on a configured table version found in the table's value",
+              construct=f"Taus.__init__: {attr} read from a fixed file")
         return
     # alternatives of the value with the decisions that select them: a table read under the first configuration's
     # version is acceptable only where a decision established that the two versions are equal (a cache keyed on it)
